@@ -355,10 +355,12 @@ impl<'cmd> Parser<'cmd> {
                             // pos_counter(which means current value cannot be a
                             // positional argument with a value next to it), assume
                             // current value matches the next arg.
-                            self.is_new_arg(&n, arg)
-                                || self
-                                    .possible_subcommand(n.to_value(), valid_arg_found)
-                                    .is_some()
+                            // (after `--` everything is a value)
+                            !trailing_values
+                                && (self.is_new_arg(&n, arg)
+                                    || self
+                                        .possible_subcommand(n.to_value(), valid_arg_found)
+                                        .is_some())
                         } else {
                             true
                         }
